@@ -529,3 +529,4 @@ MANIFEST = {
     "technique": "idiom recognition + algebraic normal forms (div-mod axiom, loss scaling) + CFG must-pass-through (AST)",
 }
 MANIFEST["text"] += ' Also: the batcher is built after the reset has re-installed the generator; zero_grad_all / step_schedulers / set_schedulers dispatch to the same models as step_optimizers (R6).'
+MANIFEST["text"] += ' Receivers of the per-model dispatchers are resolved through `for m in (self.a, self.b): m.f()`; a strict subset of the stepped models is a definite verdict.'
